@@ -26,7 +26,7 @@ def _vec(rng, lo, hi):
     return random_unit(rng) * rng.uniform(lo, hi)
 
 
-def random_model(rng, family, nbodies, springs=True, moving=True, layout="random"):
+def random_model(rng, family, nbodies, springs=True, moving=True, layout="random", far=None):
     """returns (model, poses, vels): model is JSON-like (lists of floats), poses[i] = (r, A), vels[i] = (v, Omega_I).
 
     layout 'random': arbitrary poses (large swings, typically chaotic for more than one body).
@@ -38,6 +38,9 @@ def random_model(rng, family, nbodies, springs=True, moving=True, layout="random
     gh = g / np.linalg.norm(g)
     hanging = layout == "hanging"
     world = {"r": rng.normal(size=3), "A": quat_to_mat(rng.normal(size=4))}
+    if far:
+        # the whole mechanism stands far from the coordinate origin (a site given in map coordinates): same mechanism, same motion
+        world["r"] = world["r"] / np.linalg.norm(world["r"]) * float(far)
     bodies, joints, spr = [], [], []
     poses, vels = [], []
     w0 = (float(rng.uniform(0.3, 1.0)) if hanging else float(rng.uniform(0.5, 3.0))) if moving else 0.0
